@@ -1,6 +1,6 @@
 (** * C09 — unwrapping conserves the value: handed out once or kept, never both or neither.  Property theorems only. *)
 From Coq Require Import NArith List Bool Arith.
-From TV Require Import Layout SrcFacts Conc ConcProofs Mech MechProofs MechLog MechProps Extracted.
+From TV Require Import Layout SrcFacts Conc ConcProofs ConcX Mech MechProofs MechLog MechProps Extracted.
 Import ListNotations.
 Open Scope N_scope.
 
@@ -70,6 +70,20 @@ Qed.
 Theorem C09_closed_world : Extracted.sites_closed = true.
 Proof. reflexivity. Qed.
 
+(** the three functions that speak the counter protocol, as written in the source: try_unique tests with one Acquire load
+    and nothing else; a handle that is given up is dropped through drop_inner (never a bare decrement); drop_inner
+    elects the destroyer by the decrement's own result *)
+Theorem C09_protocol_as_written : Extracted.count_progs = good_progs.
+Proof. reflexivity. Qed.
+
+
+
+(** the uniqueness tests, copy-on-write and unwrapping functions (make_mut, make_unique, get_mut, try_unique, try_unwrap,
+    unwrap_or_clone, into_inner, from_arc, OffsetArc::make_mut, drop, clone ... 21 functions) still have the bodies the
+    machine's library functions were transcribed from *)
+Theorem C09_functions_are_the_modelled_ones : Extracted.cow_forms_ok = true.
+Proof. reflexivity. Qed.
+
 Check C09_moved_out_or_destroyed_exactly_once.
 Print Assumptions C09_try_unwrap.
 Print Assumptions C09_try_unique.
@@ -78,3 +92,5 @@ Print Assumptions C09_into_inner.
 Print Assumptions C09_unwrap_or_clone.
 Print Assumptions C09_moved_out_or_destroyed_exactly_once.
 Print Assumptions C09_closed_world.
+Print Assumptions C09_protocol_as_written.
+Print Assumptions C09_functions_are_the_modelled_ones.
